@@ -21,6 +21,17 @@ pub fn ledger(sc: &Scenario, r: &Run, o: &mut Outcome) {
 		o.fail("empty-batch", format!("action handler invoked with an empty batch (#{i}){}", dump()));
 		return;
 	}
+	// an error the filter raised for a tag-less event (if it was asked about one at all) reaches the error handler
+	if sc.empty_errs && !matches!(sc.err_kind % 5, 3 | 4) {
+		let reported = r.errors.iter().filter(|e| e.id == Some(crate::wxrun::EMPTY_ERR_ID)).count();
+		if reported != r.empty_filter_calls && r.main_result == "ok" && r.quiesced {
+			o.fail(
+				if reported < r.empty_filter_calls { "filter-error-on-empty-event-lost" } else { "filter-error-on-empty-event-reported-twice" },
+				format!("the filter was asked about tag-less events {} times and raised an error each time; the error handler saw {reported} of them{}", r.empty_filter_calls, dump()),
+			);
+			return;
+		}
+	}
 	let mut delivered: HashMap<Option<u32>, usize> = HashMap::new();
 	for b in &r.batches {
 		for id in &b.ids {
@@ -163,16 +174,20 @@ pub fn scenario(errors: bool) -> BoxedStrategy<Scenario> {
 				any::<bool>(),
 				prop_oneof![3 => Just(0u16), 2 => 1u16..10, 2 => 10u16..80],
 				proptest::collection::vec(proptest::collection::vec(ev(throttle, errors), 1..12), 1..5),
+				// error queue size and a slow (20 ms per error) error handler: back-pressure on the worker
+				prop_oneof![1 => Just(1u32), 1 => Just(2), 3 => Just(64)],
+				proptest::bool::weighted(0.3),
 			)
 		})
-		.prop_map(|(throttle, chan, handler_async, handler_ms, producers)| Scenario {
+		.prop_map(move |(throttle, chan, handler_async, handler_ms, producers, err_chan, slow_err)| Scenario {
 			throttle,
 			chan,
-			err_chan: 64,
+			err_chan: if errors { err_chan } else { 64 },
 			handler_async,
 			handler_ms,
 			producers,
-			err_kind: 0,
+			err_kind: u8::from(errors && slow_err),
+			empty_errs: errors && handler_ms % 2 == 0,
 			err_j: 0,
 			replace_action_at: 0,
 			throttle_change: None,
@@ -346,7 +361,7 @@ pub fn check(e: &Engine) {
 		LegOpts::realtime(
 			e.tier.pick(3_000, 60_000),
 			48,
-			"1-4 producer tasks x 1-11 events (priority low..urgent, verdict pass/reject/error, tag shapes process/path/signal/keyboard-EOF/empty) with gaps placed relative to the throttle (inside the window, straddling its end, beyond), throttle 0-120 ms, queue size 1/2/8/4096, sync or async handler taking 0-80 ms; conservation ledger; non-trivial = >=2 batches and (reject between accepts | event sent while the handler ran | queue <=2 with >2 producers)",
+			"1-4 producer tasks x 1-11 events (priority low..urgent, verdict pass/reject/error, tag shapes process/path/signal/keyboard-EOF/empty) with gaps placed relative to the throttle (inside the window, straddling its end, beyond), throttle 0-120 ms, queue size 1/2/8/4096, error queue size 1/2/64 with an error handler that returns at once or takes 20 ms, sync or async handler taking 0-80 ms; conservation ledger; non-trivial = >=2 batches and (reject between accepts | event sent while the handler ran | queue <=2 with >2 producers)",
 		),
 		&|| scenario(true),
 		&run,
@@ -362,7 +377,7 @@ pub fn check(e: &Engine) {
 		LegOpts::realtime(
 			e.tier.pick(64, 1_500),
 			16,
-			"a separate probe process (library Watchexec with the real signal and keyboard sources) receives 1-8 generated steps: OS signals HUP/INT/QUIT/TERM/USR1/USR2 (the same kind never twice within 300 ms: standard signals do not queue), bytes on stdin, stdin closed; throttle 0/20/120 ms, keyboard source on or off, a filter rejecting a generated subset of signal kinds: every sent signal appears in exactly one handler event unless the (recording) filter returned a rejection for it, then in none, closing stdin gives exactly one keyboard-EOF event iff the keyboard source is on, typed bytes give none, no empty batch, the probe stays alive; non-trivial = >=2 signals or an EOF",
+			"a separate probe process (library Watchexec with the real signal and keyboard sources) receives 1-8 generated steps: OS signals HUP/INT/QUIT/TERM/USR1/USR2 (the same kind never twice within 300 ms: standard signals do not queue), bytes on stdin, stdin closed; throttle 0/20/120 ms, keyboard source on or off and switched 0-3 times at run time before the steps, a filter rejecting a generated subset of signal kinds: every sent signal appears in exactly one handler event unless the (recording) filter returned a rejection for it, then in none, closing stdin gives exactly one keyboard-EOF event iff the keyboard source is on, typed bytes give none, no empty batch, the probe stays alive; non-trivial = >=2 signals or an EOF",
 		),
 		&super::realsrc::strategy,
 		&super::realsrc::run,
